@@ -26,6 +26,8 @@ TEXT = {
          "Transparency (bitwise parameters, value) after every update through all six entry points; derivatives vs analytic ones within rounding/truncation bounds by stencil class; convergence order by halving the step; delegation for non-selected variables. Exploration."),
  "C16": ("coverage-guided fuzzing (libFuzzer, ASan+UBSan) of 14 entry-point groups with structure-aware decoding, dictionary, seeds and in-target semantic oracles",
          "One libFuzzer target per group of parsing entry points; bytes are decoded into option flags / characters and subject strings; bpp::Exception is a clean rejection, any other exception type, sanitizer report, division trap, malloc/rss limit or confirmed timeout is a violation; cheap semantic oracles (token/cursor consistency, table shape, split re-concatenation) run inside the targets. Exploration: ~1e5 executions per target in the quick tier, ~5e7 in the thorough tier."),
+ "C18": ("seeded statistical property tests (Kolmogorov-Smirnov / chi-square at 1e-9 against the library's own cdfs) + structural laws + exhaustive small margins",
+         "Every case carries its own library seed (reproducibility law included); continuous samplers and each distribution's draws are tested against the cumulative function of the same parameters (n = 20 000, KS threshold 3.6/sqrt(n)); picks, samples and multinomials against their weights and structural constraints; random contingency tables against exact margins for all margin pairs with total <= 8 (exhaustive) and random margins up to 5x5/200; <= 2000 statistical tests per run at 1e-9 each. Exploration with stated power, not certainty."),
  "C19": ("rapidcheck-generated parameter / probability vectors vs long-double definitions of the three codings; exhaustive dyadic lattice for n<=7",
          "Forward law (non-negative, sums to one, product formula), inverse law with a conditioning-aware bound, left-inverse / separation for injectivity, copy independence, ordered variant; exhaustive over dyadic parameter lattices for dimensions 1..7. Exploration."),
  "C20": ("stateful model-based testing against a bitset + component-list model; bounded-exhaustive enumeration of all operation sequences (length 2 quick / 3 thorough over a 0..6 universe) for four coordinate types",
